@@ -103,7 +103,7 @@ def model_check(module, cfg=None, workers=None, heap="12g", timeout=3600, extra=
 # ---------------------------------------------------------------------------------------------
 # trace validation
 
-_RE_FAIL = re.compile(r'<<"(FAIL|NOTE)", (\d+), \{(.*?)\}>>')
+_RE_FAIL = re.compile(r'<<\s*"(FAIL|NOTE)",\s*(\d+),\s*\{(.*?)\}\s*>>', re.S)      # TLC wraps long values over lines
 _RE_DONE = re.compile(r'<<"DONE", (-?\d+)>>')
 _RE_L = re.compile(r"^/?\\? ?l = (\d+)", re.M)
 
@@ -200,7 +200,10 @@ def validate(module, traces, cfg=None, shards=None, heap="3g", timeout=3000, kee
                 where = index[int(ls[-1]) - 1] if ls and 0 < int(ls[-1]) <= len(index) else None
                 raise TLCError("trace validation with %s did not consume %s (rc=%s, done=%s, at %s):\n%s"
                                % (module, path, rc, done.group(1) if done else None, where, _errtext(out)))
-            for kind, l, body in _RE_FAIL.findall(out):
+            found = _RE_FAIL.findall(out)
+            if len(found) != out.count('"FAIL"') + out.count('"NOTE"'):
+                raise TLCError("could not parse every verdict line of %s:\n%s" % (path, out[-3000:]))
+            for kind, l, body in found:
                 ti, n = index[int(l) - 1]
                 clauses = re.findall(r'"([^"]+)"', body)
                 (res.fails if kind == "FAIL" else res.notes).append((ti, n, clauses))
